@@ -134,11 +134,13 @@ def replay_banners(rep):
         o, parsed, _ = call(SshProtocolMessage.parse_exact_size, wire)
         back = wire_ssh.message_abs(parsed) if o == 'ok' else None
         if back is None or json.dumps(back[1], sort_keys=True) != json.dumps(c['abs'], sort_keys=True):
-            rep.violation('SshProtocolMessage|conformant-encoding-not-recovered|generated',
+            rep.violation('SshProtocolMessage|conformant-encoding-not-recovered|generated:%s%s' % (
+                              bytes(c['abs']['software']).decode('latin-1'), ' +comment' if c['abs']['has_comment'] else ''),
                           'a conformant identification string is not parsed to its field values',
                           {'wire': wire.decode('latin-1'), 'parse': o, 'expected': c['abs'], 'got': back[1] if back else None})
         elif bytes(parsed.compose()) != wire:
-            rep.violation('SshProtocolMessage|layout-differs-from-specification|generated',
+            rep.violation('SshProtocolMessage|layout-differs-from-specification|generated:%s%s' % (
+                              bytes(c['abs']['software']).decode('latin-1'), ' +comment' if c['abs']['has_comment'] else ''),
                           'the parsed identification string composes to other bytes',
                           {'wire': wire.decode('latin-1'), 'composed': bytes(parsed.compose()).decode('latin-1')})
     rep.traces += len(cases)
